@@ -50,7 +50,7 @@ type Tmpl struct {
 	Keys   []string // object key pool (concrete, sorted)
 	// KeysFor, if set, gives individual nodes (by name) their own key pool.
 	KeysFor func(nodeName string) ([]string, bool)
-	Exps   []int    // exponent set for float64 numbers
+	Exps    []int // exponent set for float64 numbers
 	// NumReps lists the admissible numeric representations (nil = float64 only).
 	NumReps []int
 	// ContainerReps enables typed containers, Go arrays, named string / key types (see reps.go).
@@ -87,21 +87,21 @@ type Node struct {
 	Depth int
 	m     *Machine
 
-	Tag  *smt.Term // Int in [0,5]
-	B    *smt.Term // Bool
-	Mant *smt.Term // Int, |Mant| < 2^53
-	Esel *smt.Term // Int index into Tm.Exps
-	IVal *smt.Term // Int: value when the representation is an integer kind
-	JN   *smt.Term // Int: numerator n of a json.Number n/10^JK
-	NZ   *smt.Term // Bool: a zero float has its sign bit set (templates with NegZero)
-	JBad *smt.Term // Bool: the json.Number text is not a parseable number (nil = never)
-	JK   *smt.Term // Int in [0,3]
-	Rep  *smt.Term // Int: numeric representation selector; const 0 = float64
-	CRep *smt.Term // Int: string/array/object typing selector; const 0 = canonical
-	Wrap *smt.Term // Int: pointer layers around the value (0 or 1); const 0 = none
+	Tag    *smt.Term // Int in [0,5]
+	B      *smt.Term // Bool
+	Mant   *smt.Term // Int, |Mant| < 2^53
+	Esel   *smt.Term // Int index into Tm.Exps
+	IVal   *smt.Term // Int: value when the representation is an integer kind
+	JN     *smt.Term // Int: numerator n of a json.Number n/10^JK
+	NZ     *smt.Term // Bool: a zero float has its sign bit set (templates with NegZero)
+	JBad   *smt.Term // Bool: the json.Number text is not a parseable number (nil = never)
+	JK     *smt.Term // Int in [0,3]
+	Rep    *smt.Term // Int: numeric representation selector; const 0 = float64
+	CRep   *smt.Term // Int: string/array/object typing selector; const 0 = canonical
+	Wrap   *smt.Term // Int: pointer layers around the value (0 or 1); const 0 = none
 	Parent *Node
-	Str  *smt.Term // Str
-	Len  *smt.Term // Int in [0, MaxLen] (0 at the depth limit)
+	Str    *smt.Term // Str
+	Len    *smt.Term // Int in [0, MaxLen] (0 at the depth limit)
 
 	elems   []*Node
 	vals    []*Node
